@@ -1,6 +1,7 @@
 package main
 
 import (
+	"regexp"
 	"fmt"
 	"go/token"
 	"go/types"
@@ -424,8 +425,16 @@ func (e *Engine) writeSetOfFunc(fn *ssa.Function) map[string]bool {
 	return ws.keys
 }
 
+var reArrayKey = regexp.MustCompile(`^\[\d+\]`)
+
 func (e *Engine) inModSet(keys map[string]bool, compKey string) bool {
 	for k := range keys {
+		if (k[:2] == "T:" || k[:2] == "C:") && reArrayKey.MatchString(k[2:]) {
+			// array objects keep their elements in the component of slice elements
+			if strings.HasPrefix(compKey, reArrayKey.ReplaceAllString(k[2:], "[]")+"[") {
+				return true
+			}
+		}
 		switch k[:2] {
 		case "T:":
 			t := k[2:]
